@@ -82,6 +82,7 @@ def generate(rng, tier):
         if a == b:
             b = (a + 1) % 3
         cases.append(dict(c, kind="switch", fn=a, fn2=b, custom_title=bool(j % 2), first=["T", "F"][(j // 2) % 2], ops=[],
+                          mat2=(None if j % 3 == 0 else dict(c["mat"], rho=c["mat"]["rho"] * 1.75, bcoh=c["mat"]["bcoh"] * (0.6 if j % 3 == 1 else 1.0))),
                           desc={"ops": "switch", "fn": SL.FNS[a], "fn2": SL.FNS[b], "custom_title": bool(j % 2), "lowq": c["lowq"], "n_ops": 3,
                                 "r0_is_0": c["dr"][0] == 0.0}))
     return cases
@@ -136,6 +137,8 @@ def run_switch(pystog, case):
         st.transform_merged()
     else:
         st.fourier_filter()
+    if case.get("mat2"):      # the sample's density / coherent scattering length are corrected on the live object as well
+        st.density, st.bcoh_sqrd = case["mat2"]["rho"], case["mat2"]["bcoh"]
     st.real_space_function = SL.FNS[case["fn2"]]
     out_f = [np.asarray(a, float).tolist() for a in st.fourier_filter()]
     st.transform_merged()
@@ -223,6 +226,7 @@ def oracle(pystog, case, res):
     m = case["mat"]
     tr, ff, cv = pystog.Transformer(), pystog.FourierFilter(), pystog.Converter()
     if case.get("kind") == "switch":
+        m = case.get("mat2") or m
         fn2 = SL.FNS[case["fn2"]].replace("(r)", "")
         q, sq, dr = np.array(case["q"], float), np.array(case["sq"], float), np.array(case["dr"], float)
         r0, g0, _ = getattr(tr, "S_to_" + fn2)(q, sq, dr, **{"lorch": False, "rho": m["rho"], "<b_coh>^2": m["bcoh"]})
